@@ -224,7 +224,7 @@ func init() {
 		Rule: "every position of a single injected failure: (write) 4 marshal entry points × the small Go value corpus × both destination kinds (plain io.Writer and io.StringWriter) × every Write/WriteString call index of the fault-free run × {0 or 1 bytes accepted} × {fails once, keeps failing}; " +
 			"(encode) the CBE and CTE low-level encoders driven event by event over the I/O document corpus with the same fault scripts: the event during which the write fails must report it; " +
 			"(read) 6 reader entry points × every document × every Read call index (incl. the call that would return EOF) × the 4 fault kinds, with full reads and with one-byte reads (every byte offset); oracle: the call returns a non-nil error whenever a failure was injected, and no panic escapes; distinct_nontrivial = distinct (entry, input, destination kind)",
-		Assumptions: []string{"a conforming io.Writer reports an error whenever it accepts fewer bytes than given, so only (k, err) answers are injected", "low-level encoders report by panicking (documented contract)",},
+		Assumptions: []string{"a conforming io.Writer reports an error whenever it accepts fewer bytes than given, so only (k, err) answers are injected", "low-level encoders report by panicking (documented contract)"},
 		TrustedBase: []string{"env.Reader / env.Writer scripted I/O"},
 		Guards:      map[string]int64{"faults_injected": 20000, "write_fault_runs": 5000, "read_fault_runs": 5000, "encode_fault_runs": 5000},
 		Run:         c29Run,
